@@ -374,6 +374,51 @@ def unicast(ctx):
     ctx.ob('C14.D4', sm.qualname, 'delivers-to-resolved-connection', okres,
            'sendMessage must hand the message to the connection resolved '
            'from the destination name')
+    # an addressed message is dropped only for want of an owner: every path
+    # with a destination that hands the message to nobody must have found
+    # nothing under that name in the table of connections / of name owners -
+    # whatever the type of the message (replies are addressed like calls)
+    mp = ('param', sm.params()[1])
+    sdest = ('attr', mp, 'destination')
+    selft = ('param', 'self')
+
+    def is_lookup(t):
+        while kind(t) == 'sub':
+            if kind(t[1]) == 'attr' and t[1][1] == selft and t[2] == sdest:
+                return True                   # self.<table>[destination]
+            t = t[1]
+        return kind(t) == 'call' and kind(t[2]) == 'attr' and \
+            t[2][2] == 'get' and kind(t[2][1]) == 'attr' and \
+            t[2][1][1] == selft and t[3] and t[3][0] == sdest
+    n_drop = 0
+    for p in Interp(prog, exc_edges=False).run(sm):
+        addressed = any(kind(c) == 'cmp' and c[2] == sdest and c[3] == NONE
+                        and (c[1] in ('is not', '!=')) == pol
+                        for c, pol in p.cond) or \
+            any(c == sdest and pol for c, pol in p.cond)
+        if not addressed:
+            continue
+        handed = [c for c in p.calls(deep=False) if kind(c[2]) == 'attr' and
+                  c[2][2] == 'sendMessage' and c[3] == (mp,)]
+        if handed:
+            ctx.ob('C14.D4', sm.qualname, 'receiver-is-the-owner-found',
+                   all(is_lookup(c[2][1]) for c in handed),
+                   'the connection the message is handed to must be what '
+                   'the destination name resolves to in the bus tables; it '
+                   'is %s' % term_str(handed[0][2][1])[:80])
+            continue
+        n_drop += 1
+        why = [c for c, pol in p.cond if not pol and is_lookup(c)]
+        ctx.ob('C14.D4', sm.qualname, 'dropped-only-for-want-of-an-owner',
+               bool(why), 'an addressed message is handed to nobody on a '
+               'path that did not find the destination unowned [%s]: it '
+               'must reach the connection owning the name at that moment, '
+               'whatever its type' % '; '.join(
+                   '%s is %s' % (term_str(c)[:50], pol)
+                   for c, pol in p.cond[-3:]))
+    if n_drop == 0:
+        raise AnalysisError('C14: no undelivered path in Bus.sendMessage '
+                            '(anchor changed)')
 
 
 def rule_lifecycle(ctx):
